@@ -135,12 +135,21 @@ Example c19_substring_flag_repaired :
   /\ wf_prog [KKeyword (S_ "foo")] = true /\ classify_line [KKeyword (S_ "foo")] wit_mb = None
   /\ reply_ok (search_line [KKeyword (S_ "foo")] wit_mb) (spec_search [KKeyword (S_ "foo")] wit_mb) = true.
 Proof. exact substring_flag_repaired. Qed.
-Theorem c19_refuted_text_atom_repeated_field : exists ks mb, refutes CTextAtom ks mb.
-Proof. exact refuted_text_atom_repeated_field. Qed.
-Print Assumptions c19_refuted_text_atom_repeated_field.
-Theorem c19_refuted_text_atom_sent_date : exists ks mb, refutes CTextAtom ks mb.
-Proof. exact refuted_text_atom_sent_date. Qed.
-Print Assumptions c19_refuted_text_atom_sent_date.
+(** repaired by the header-occurrence and RFC 5322 sent-date fixes: the former
+    text_atom witnesses meet the specification; folded fields keep their white space *)
+Example c19_text_keys_repaired :
+  search_line [KHeader (S_ "X-A") (S_ "et")] wit_mb = ROk []
+  /\ search_line [KHeader (S_ "X-A") (S_ "two")] wit_mb = ROk [1]
+  /\ search_line [KDate true COn (S_ "3", 1, S_ "2006")] wit_mb = ROk [2]
+  /\ classify_line [KHeader (S_ "X-A") (S_ "et"); KDate true COn (S_ "3", 1, S_ "2006")] wit_mb = None
+  /\ field_values fold_msg (S_ "subject") = [S_ " first  second   line"]
+  /\ sent_date fold_msg = Some (2006, 1, 3).
+Proof. exact text_keys_repaired. Qed.
+
+Theorem c19_refuted_sent_date_tab : refutes CSentDateTab [KDate true COn (S_ "2", 1, S_ "2006")] tab_mb
+  /\ sent_date (s_text (hd (mk_smsg 0 [] [] (0,0,0)) tab_mb)) = Some (2006, 1, 2).
+Proof. exact refuted_sent_date_tab. Qed.
+Print Assumptions c19_refuted_sent_date_tab.
 Theorem c19_refuted_quoted_space : exists ks mb, refutes CQuotedSpace ks mb.
 Proof. exact refuted_quoted_space. Qed.
 Print Assumptions c19_refuted_quoted_space.
